@@ -17,6 +17,17 @@ type Emitter struct {
 // Do executes one case on the real code, records the protocol line with the observed
 // behaviour and evaluates the property oracle.
 func (e *Emitter) Do(cs Case, class string) Result {
+	if class == "replay" && cs.St0&Received == 0 && len(cs.Cfg) > 1 {
+		// the initiator's choice among several candidates follows Go's map iteration order:
+		// a replay repeats the run so that both orders are seen
+		for i := 0; i < 7; i++ {
+			e.do(cs, class)
+		}
+	}
+	return e.do(cs, class)
+}
+
+func (e *Emitter) do(cs Case, class string) Result {
 	res := Exec(cs)
 	line := cs.Line(res)
 	e.R.Line(line, res.Obs(cs.Cfg))
